@@ -55,6 +55,24 @@ CHECKS = {
    note="Trusted: the reference interpreter (sim/ref/interp.cpp, ~350 lines written from the manual; it agrees with the implementation on every fault-free run of every batch, otherwise the run is a violation); at most one effectful sub-expression per expression so evaluation order is unobservable; errors are compared by class not message; cancel runs are checked for invariants only.",
    technique="deterministic simulation: fault-point enumeration (runtime errors injected at expression positions via a plugin, cancel at statement #k), reference-interpreter oracle + residue invariants + step-bounded liveness, CLI driver route",
    design="DESIGN.md section 4 (C07)"),
+ "C06": dict(
+   level="exploration",
+   text="Loop exit routes are the faults: generated loop nests (depth <= 3) and lattice loops - for-headers with first/limit in {INT64_MIN, MIN+1, -2..2, MAX-2..MAX}, equal, reversed, step in {absent, null, 0, -1, 1, 2, 3, MAX}, asc/desc/auto, null bounds, a bound with a visible side effect (evaluated once), bodies moving the control variable forward; forall asc/desc with writes through the iterator - are left normally, by break, continue, return, handled and unhandled runtime errors injected at fault points, and bloc_break at statement #k. A reference interpreter predicts the exact sequence of iterator values printed, the variables after the loop and the behaviour of probe statements that re-type the iterator names and change the iterated tables; termination is checked as bounded liveness (statement steps <= 200 + 30 x the model's steps, never wall-clock); residue invariants must hold after every unit.",
+   note="Trusted: the reference interpreter (sim/ref/interp.cpp, written from the manual for the generated subset; any disagreement on a fault-free run is itself reported), at most one effectful sub-expression per expression so evaluation order is unobservable, errors compared by class not message, cancel runs checked for invariants only. Decimal loop bounds are not generated (the manual does not define them).",
+   technique="deterministic simulation: seeded loop-header lattice + exit-route fault injection (runtime errors, cancel), reference-interpreter oracle, step-bounded liveness, residue invariants",
+   design="DESIGN.md section 4 (C06)"),
+ "C08": dict(
+   level="exploration",
+   text="Function runtime contexts are pooled and recycled, so what a call sees depends on the history of earlier calls. Plans are call histories of up to 40 calls over functions with conditionally assigned locals, a parameter and locals named like caller variables, reassigned parameters, overloads by arity, recursion up to and beyond the 255 limit, loops and blocks; earlier calls end by return, by an error handled inside, by an error escaping (caught by the caller or not), by a failure while arguments are bound (1/0, fault point in an argument), or by bloc_break. The reference interpreter gives every call fresh locals and a private variable space: result and output of every call, caller variables untouched, RECURSION_LIMIT exactly at the 256th nested call; residue invariants and the vf object ledger cover contexts lost or left dirty.",
+   note="Trusted: the reference interpreter (sim/ref/interp.cpp, written from the manual for the generated subset; any disagreement on a fault-free run is itself reported), at most one effectful sub-expression per expression so evaluation order is unobservable, errors compared by class not message, cancel runs checked for invariants only.",
+   technique="deterministic simulation: seeded call histories with error / argument-binding / cancel exits over a recycled context pool, reference-interpreter oracle, object ledger",
+   design="DESIGN.md section 4 (C08)"),
+ "C05": dict(
+   level="exploration",
+   text="The temporary pool is recycled at every statement and kept after an error, so aliasing bugs only show when storage is read again later. Plans interleave alias candidates (b = a, t.put(i, a), f(a), tup(a, ..), tab(n, a), returned values) over integers, strings, integer and string tables and tuples with in-place mutations of one alias (put, insert, delete, concat, set@, string concat, writes through a forall iterator) and print every alias after every mutation; the same side-effect-free expression is re-evaluated in loops; literal constants are used as sources of in-place mutated values inside loops; fault points fire inside expressions after some operands were evaluated. The reference interpreter has plain value semantics; additionally the text unparsed from the executable must be identical before and after the run (constants of the program text unchanged).",
+   note="Trusted: the reference interpreter (sim/ref/interp.cpp, written from the manual for the generated subset; any disagreement on a fault-free run is itself reported), at most one effectful sub-expression per expression so evaluation order is unobservable, errors compared by class not message, cancel runs checked for invariants only. The cross-context form (a constant node written by one clone and read by another) is exercised by C14.",
+   technique="deterministic simulation: seeded alias/mutation histories with fault points inside expressions, reference-interpreter (value semantics) oracle, unparse-before/after invariant",
+   design="DESIGN.md section 4 (C05)"),
 }
 
 NOT_APPLICABLE = {
